@@ -665,6 +665,8 @@ def menu_dicts():
         # through a key that is NOT present in a dict with a (non-empty) default: the entry is created from the default and then changed
         ("pop", c, [k_(7)]), ("remove", c, [k_(7), i_(0)]), ("remove", c, [k_(8), ("s", 0, 1)]), ("op", c, [k_(7), i_(0)], "+", ONE),
         ("assign", c, [k_(9), i_(1)], SEVEN), ("every", c, [k_(7), ("s", 0, 2)], lit(I(0), "0")), ("swap", c, [k_(7), i_(0)], c, [k_(7), i_(1)]),
+        # through a key that is not present in a dict WITHOUT default: refused, and the key must not appear
+        ("assign", a, [k_(7), i_(0)], SEVEN), ("op", a, [k_(7), i_(0)], "+", ONE), ("every", a, [k_(7), ("s", 0, 2)], lit(I(0), "0")), ("assign", a, [k_(7), k_(1)], SEVEN),
         ("consume", c, a), ("for", a), ("assign", b, [], ("list", VA, VC)), ("assign", b, [i_(0), k_(1), i_(0)], lit(I(2), "2")),
         ("op", b, [i_(1), k_(7)], "append", ONE),
     ]
@@ -941,6 +943,9 @@ def failed_aftermath(stmt, before, r, sig, trail):
             g = {json.dumps(e[0], sort_keys=True): e[1] for e in new[1] if json.dumps(e[0], sort_keys=True) != key}
             if resort(o) != resort(g):
                 bad = "entries under other keys changed"
+            elif key not in {json.dumps(e[0], sort_keys=True) for e in old[1]} and key in {json.dumps(e[0], sort_keys=True) for e in new[1]}:
+                # the addressed slot of an EXISTING key may be left empty by a failed statement; a key that did not exist must not appear
+                bad = "the failed statement created the key it addressed"
     if bad:
         return [Violation(sig + " result=failed-statement-destroyed-unaddressed-parts", "%s raised: %s; %s is now %s (was %s)" % (trail, bad, tgt, json.dumps(new)[:200], json.dumps(old)[:200]), old, new)]
     return []
